@@ -119,6 +119,10 @@ func childRun(base, logPath string, kill int, seed int64) {
 	}
 	ctx := context.Background()
 	m := drv.NewMapping(seed)
+	killAck := 0
+	if kill < 0 {
+		killAck, kill = -kill, 0 // die right after that many calls were acknowledged, not before a mutation
+	}
 	installKill(logPath, kill)
 	drv.ResetCounters()
 	db, err := inline.Open(ctx, cfgOf(base))
@@ -156,6 +160,10 @@ func childRun(base, logPath string, kill int, seed int64) {
 			os.Exit(5)
 		}
 		note(logPath, fmt.Sprintf("A %d", i+1))
+		if killAck == i+1 {
+			syscall.Kill(os.Getpid(), syscall.SIGKILL) // the caller has its answer; nothing else gets a chance to run
+			select {}
+		}
 		drv.WaitIdle(5 * time.Second)
 		note(logPath, fmt.Sprintf("I %d", i+1))
 	}
@@ -241,6 +249,131 @@ func childRecover(base, logPath string, kill int, seed int64, ntags int) {
 	db.Close()
 	b, _ := json.Marshal(obs)
 	fmt.Println(string(b))
+}
+
+// ---------------------------------------------------------------- a commit of many keys, killed at every point (Bulk.tla)
+
+type bulkScenario struct {
+	N    int    `json:"n"`
+	Bulk string `json:"bulk"`
+}
+
+func bulkKey(i int) string { return fmt.Sprintf("bulk-%05d", i) }
+
+// childBulkRun: a transaction writes n keys and commits; the process dies before mutation number kill (counted from
+// the start of Commit). The log says when Commit started and whether it was acknowledged.
+func childBulkRun(base, logPath string, kill, n int) {
+	drv.InstallCounters()
+	ctx := context.Background()
+	db, err := inline.Open(ctx, cfgOf(base))
+	if err != nil {
+		fmt.Fprintln(os.Stderr, "open:", err)
+		os.Exit(4)
+	}
+	tx, err := db.Begin(ctx, fs_db.IsoLevelReadCommitted)
+	if err != nil {
+		os.Exit(4)
+	}
+	for i := 0; i < n; i++ {
+		if err := tx.Set(ctx, bulkKey(i), []byte{byte(i), byte(i >> 8)}); err != nil {
+			fmt.Fprintln(os.Stderr, "set:", err)
+			os.Exit(4)
+		}
+	}
+	drv.WaitIdle(10 * time.Second)
+	cnt := installKill(logPath, kill)
+	note(logPath, "S")
+	if err := tx.Commit(ctx); err != nil {
+		note(logPath, "E "+err.Error())
+		os.Exit(5)
+	}
+	note(logPath, fmt.Sprintf("A %d", *cnt))
+	drv.WaitIdle(10 * time.Second)
+	note(logPath, fmt.Sprintf("T %d", *cnt))
+	db.Close()
+}
+
+// childBulkCheck reopens and prints how many of the n keys read back.
+func childBulkCheck(base string, n int) {
+	ctx := context.Background()
+	db, err := inline.Open(ctx, cfgOf(base))
+	if err != nil {
+		fmt.Println("E open " + err.Error())
+		return
+	}
+	defer db.Close()
+	present := 0
+	for i := 0; i < n; i++ {
+		b, err := db.Get(ctx, bulkKey(i))
+		if err == nil && len(b) == 2 && b[0] == byte(i) && b[1] == byte(i>>8) {
+			present++
+		}
+	}
+	ks, _ := db.GetKeys(ctx)
+	fmt.Printf("P %d %d\n", present, len(ks))
+}
+
+func (r *runner) judgeBulk(id, n int) (res result) {
+	res = result{Id: id, Mode: "crash", Status: "ok"}
+	failB := func(d string) result {
+		res.Status, res.Owner, res.Mismatch = "violation", "C04", &mismatch{Kind: "partial", Detail: d}
+		return res
+	}
+	// dry run: how many persistent mutations does the commit (and the cleanup that follows it) make
+	dry, err := os.MkdirTemp(r.base, "bk")
+	if err != nil {
+		res.Status, res.Error = "error", err.Error()
+		return
+	}
+	lp := filepath.Join(dry, "run.log")
+	_, killed, err := r.spawn([]string{"-child", "bulkrun", "-base", dry, "-log", lp, "-kill", "0", "-ntags", fmt.Sprint(n)}, nil)
+	total := 0
+	for _, l := range readLog(lp) {
+		if strings.HasPrefix(l, "T ") {
+			fmt.Sscanf(l, "T %d", &total)
+		}
+	}
+	os.RemoveAll(dry)
+	if err != nil || killed || total == 0 {
+		res.Status, res.Error = "error", fmt.Sprintf("dry run of a commit of %d keys failed: %v (mutations %d)", n, err, total)
+		return
+	}
+	res.Muts = total
+	for m := 1; m <= total+1; m++ {
+		dir, err := os.MkdirTemp(r.base, "bk")
+		if err != nil {
+			res.Status, res.Error = "error", err.Error()
+			return
+		}
+		lp := filepath.Join(dir, "run.log")
+		_, _, err = r.spawn([]string{"-child", "bulkrun", "-base", dir, "-log", lp, "-kill", fmt.Sprint(m), "-ntags", fmt.Sprint(n)}, nil)
+		acked := false
+		for _, l := range readLog(lp) {
+			acked = acked || strings.HasPrefix(l, "A ")
+		}
+		for round := 1; round <= 2; round++ {
+			out, _, cErr := r.spawn([]string{"-child", "bulkcheck", "-base", dir, "-ntags", fmt.Sprint(n)}, nil)
+			present, listed := -1, -1
+			fmt.Sscanf(strings.TrimSpace(string(out)), "P %d %d", &present, &listed)
+			where := fmt.Sprintf("a transaction wrote %d keys; the process was killed before mutation %d of the %d its Commit makes (acknowledged: %v); reopening %d", n, m, total, acked, round)
+			switch {
+			case cErr != nil || present < 0:
+				os.RemoveAll(dir)
+				return failB(fmt.Sprintf("the database does not open / read after the kill (%v %s): %s", cErr, strings.TrimSpace(string(out)), where))
+			case present != 0 && present != n:
+				os.RemoveAll(dir)
+				return failB(fmt.Sprintf("%d of the %d keys are there: the commit is visible in part: %s", present, n, where))
+			case acked && present != n:
+				os.RemoveAll(dir)
+				return failB(fmt.Sprintf("the commit had been acknowledged and none of its keys is there: %s", where))
+			case listed != present:
+				os.RemoveAll(dir)
+				return failB(fmt.Sprintf("GetKeys lists %d keys, %d read back: %s", listed, present, where))
+			}
+		}
+		os.RemoveAll(dir)
+	}
+	return res
 }
 
 type runner struct {
@@ -421,6 +554,12 @@ func (r *runner) judge(id int, ops []wop, points string, double int) (res result
 			pts = append(pts, n)
 		}
 	}
+	// ... and a kill immediately after every acknowledgement (negative numbers): what was acknowledged must be there
+	for i := range ops {
+		if ops[i].Op != "begin" && (points == "all" || (int(r.seed)+id+i)%2 == 0) {
+			pts = append(pts, -(i + 1))
+		}
+	}
 	zero := map[string]int{}
 	viewAfter := func(a int) map[string]int {
 		if a == 0 {
@@ -451,10 +590,13 @@ func (r *runner) judge(id int, ops []wop, points string, double int) (res result
 			acked = len(ops)
 		}
 		allowed := []map[string]int{viewAfter(acked)}
-		if acked < len(ops) {
+		if acked < len(ops) && n > 0 {
 			allowed = append(allowed, viewAfter(acked+1))
 		}
 		where := fmt.Sprintf("workload %s, killed before mutation %d of %d (%d calls acknowledged)", opsStr(ops), n, total, acked)
+		if n < 0 {
+			where = fmt.Sprintf("workload %s, killed right after call %d was acknowledged", opsStr(ops), -n)
+		}
 		check := func(obs observation, what string) *result {
 			if obs.Error != "" {
 				rr := fail(acked, "error", fmt.Sprintf("%s: %s: %s", what, obs.Error, where))
@@ -646,6 +788,12 @@ func main() {
 	case "second":
 		childSecondLife(*base, *seed, *ntags)
 		return
+	case "bulkrun":
+		childBulkRun(*base, *logp, *kill, *ntags)
+		return
+	case "bulkcheck":
+		childBulkCheck(*base, *ntags)
+		return
 	}
 	self, _ := os.Executable()
 	f, err := os.Open(*in)
@@ -668,12 +816,18 @@ func main() {
 			break
 		}
 		n++
+		r := &runner{self: self, seed: *seed + int64(line), base: *base}
+		var bulk []bulkScenario
+		if json.Unmarshal(sc.Bytes(), &bulk) == nil && len(bulk) == 1 && bulk[0].Bulk == "commitcrash" {
+			enc.Encode(r.judgeBulk(line, bulk[0].N))
+			w.Flush()
+			continue
+		}
 		var ops []wop
 		if err := json.Unmarshal(sc.Bytes(), &ops); err != nil {
 			enc.Encode(result{Id: line, Status: "error", Error: "parse: " + err.Error()})
 			continue
 		}
-		r := &runner{self: self, seed: *seed + int64(line), base: *base}
 		enc.Encode(r.judge(line, ops, *points, *double))
 		w.Flush()
 	}
